@@ -212,12 +212,38 @@ fn check_c14(g: &G, sel: u64, mut vd: Verdict) -> Verdict {
     let src = &g.out;
     // the closing parentheses of calls / definitions: truncating right before one leaves a ')' open at end of input
     let rparens: Vec<(usize, bool)> = g.marks.iter().filter_map(|m| match m.kind { MK::Delim("RPAREN", hidden) => Some((m.off, hidden)), _ => None }).collect();
-    let total = g.dels.len() + rparens.len();
+    let total = g.dels.len() + rparens.len() + g.trunc_points.len();
     if total == 0 {
         vd.discard = Some("program has no deletable mandatory delimiter");
         return vd;
     }
     let pick = ((sel as usize) * total) >> 16;
+    if pick >= g.dels.len() + rparens.len() {
+        // cut inside open call parentheses: every '(' still open (the call's own, nested groups in
+        // argument text, expression parentheses) gets its zero-width ')' at end of input
+        let (off, open) = g.trunc_points[pick - g.dels.len() - rparens.len()];
+        let m = src[..off].to_string();
+        vd.key = m.clone();
+        vd.label(format!("truncated-inside-parens:open={}", open.min(6)));
+        let r = match lex(Variant::Rel, &m) {
+            Lexed::Ok(r) if !r.verif.budget_exceeded => r,
+            _ => {
+                vd.discard = Some("no result (C01 territory)");
+                return vd;
+            }
+        };
+        let exp = m.len();
+        let virt = r.toks.iter().filter(|t| t.t == T::RPAREN && t.empty() && t.b as usize == exp).count();
+        let has_err = r.errs.iter().any(|e| e.k == crate::api::EK::MissingExpectedRParen && e.b as usize == exp);
+        let show = format!("{}⟦end of input, {open} '(' open⟧", &m[floor(&m, m.len().saturating_sub(50))..]);
+        if !has_err {
+            vd.violations.push(Violation::new("C14", "not-diagnosed", "not-diagnosed:MissingExpectedRParen:inside-parens", format!("expected MissingExpectedRParen at end of input (byte {exp}): {show}; errors: {:?}", r.errs.iter().map(|e| (e.k, e.b)).collect::<Vec<_>>())));
+        } else if virt != open {
+            vd.violations.push(Violation::new("C14", "no-recovery-token", "no-recovery-token:RPAREN:count", format!("{open} parentheses are open at end of input but {virt} zero-width RPAREN tokens were inserted: {show}")));
+        }
+        vd.nontrivial = true;
+        return vd;
+    }
     if pick >= g.dels.len() {
         let (off, hidden) = rparens[pick - g.dels.len()];
         let m = src[..off].to_string();
